@@ -146,6 +146,15 @@ def wrappers_mean_what_they_say(ctx):
         ctx.check(good, 'reduced.dec.func[%s]' % ('arraylike' if arraylike else 'pairwise'),
                   'returns reducer(result) if iterable else result, result = f(*args, **kwds)',
                   'reduced returns %s' % T.show(ret), f, f.node)
+    # wrap_reducer (SetReducer without arraylike): a pairwise reducer is folded over the cost vector itself - no seed
+    # value takes part (a seed of 0.0 would change max / product reductions)
+    f = ctx.func('mystic.tools:wrap_reducer._reduce')
+    outer = ctx.func('mystic.tools:wrap_reducer')
+    rts = return_terms(f.node)
+    want = ('call', ('name', 'reduce'), (('name', outer.args()[0]), ('name', f.args()[0])), ())
+    ctx.stats['terms_compared'] += 1
+    ctx.check(bool(rts) and all(x[1] == want for x in rts), 'wrap_reducer._reduce', 'reduce(reducer, x): the fold of the cost vector, nothing else',
+              'wrap_reducer folds as %s' % ([T.show(x[1]) for x in rts][:1]), f, f.node)
 
 
 def _trial_energy_defs(f, name='trialEnergy'):
@@ -537,3 +546,10 @@ def penalty_and_reducer_changes_take_effect(ctx):
         cls = ctx.cls(anchor)
         n, decoin = invalidate.check_class(ctx, key, cls, only_attrs={'_penalty', '_reducer'}, label_prefix=key + ':')
         ctx.need({'_penalty', '_reducer'} <= decoin, '%s: penalty/reducer not captured by the decorator?' % cls.name)
+
+
+@rule('C01.j', min_instances=12)
+def members_are_evaluated_after_bounds_and_constraints(ctx):
+    """the point whose energy is stored is the image under BOTH the constraints and the strict bounds: all six coupling sites build and_(self._constraints, self._strictbounds, onfail=self._strictbounds) under strict ranges and self._constraints otherwise (shared with C03.d) - with the bare constraints under tight ranges the reported best solution is a vector the cost was never called with"""
+    from .c03 import and_falls_back_to_bounds
+    and_falls_back_to_bounds(ctx)
